@@ -7,8 +7,8 @@ Vals2V == {"x", "y"}
 PricesV == {0, 1}
 LimitsV == {1, 5}
 CodeGasV == [s \in {"small", "huge"} |-> IF s = "small" THEN 0 ELSE 4]
-FeesV == {0, 2, 3}
-InitOngV == [a \in PayersV \cup {"GOV", "SINK"} |-> IF a = "P" THEN 3 ELSE IF a = "Q" THEN 1 ELSE 0]
+FeesV == {0, 2, 3, 5}
+InitOngV == [a \in PayersV \cup {"GOV", "SINK"} |-> IF a = "P" THEN 5 ELSE IF a = "Q" THEN 1 ELSE 0]
 Edge == PrintT(<<"EDGE", ToJson([from |-> State, act |-> act', to |-> State'])>>)
 InitOut == (TLCGet("level") = 1) => PrintT(<<"INIT", ToJson(State)>>)
 =============================================================================
